@@ -12,6 +12,53 @@ def encoded_len(pkt, v, harness):
     return sum(len(unhex(x)) for x in f.get("chunks", "").split(",") if x)
 
 
+def suite_connect_limits(report, tier, seed, prop="C16"):
+    """CONNECT options are user-constructed too: a string/binary field above 65535 bytes must never reach the wire
+    (either the connection attempt is failed locally, or the CONNECT is well-formed and carries the field intact)"""
+    from gv import Finding
+    rng = Rng(seed, "connect-limits")
+    fields = ["cid", "user", "pass", "w.payload", "w.topic", "up"]
+    reqs, metas = [], []
+    for fld in fields:
+        for n in (65535, 65536, 70000):
+            big = "x" + "61" * n
+            opts = "ka=60 cid=x63"
+            if fld == "cid":
+                opts = f"ka=60 cid={big}"
+            elif fld in ("user", "pass"):
+                opts += f" {fld}={big}"
+            elif fld == "w.payload":
+                opts += f" w.topic=x77 w.qos=0 w.payload={big}"
+            elif fld == "w.topic":
+                opts += f" w.topic={big} w.qos=0"
+            else:
+                opts += f" up=x6b:{big}"
+            reqs += ["session.reset", f"eng.new v=5 policy=all | {opts}", "eng.open t=0 deadline=30000", "eng.svc t=0 cap=200000 prefill=0"]
+            metas.append((fld, n, len(reqs) - 1))
+    impl = harness_batch(reqs)
+    ok = True
+    dec_reqs = []
+    for fld, n, pos in metas:
+        f, _ = resp_fields(impl[pos])
+        dec_reqs.append(f"spec.decode v=5 b={f.get('bytes', 'x')}")
+    dec = driver_batch(dec_reqs)
+    for (fld, n, pos), d in zip(metas, dec):
+        report.case(reqs[pos - 2])
+        f, _ = resp_fields(impl[pos])
+        sent = len(unhex(f.get("bytes", "x")))
+        fd, segs = resp_fields(d)
+        wellformed = fd.get("n") == "1" and fd.get("left") == "0"
+        intact = wellformed and ("61" * n) in segs[0]
+        report.count("connect-limits." + ("sent" if sent else "not-sent"))
+        if sent and not intact:
+            ok = False
+            report.add_finding(Finding(prop, "mon:connect-limits", {"clause": "connect-not-validated"},
+                                       f"CONNECT option {fld} of {n} bytes: {sent} bytes were written that the reference decoder "
+                                       f"{'decodes to different content' if wellformed else 'cannot decode'} (the length prefix is truncated modulo 65536)",
+                                       reqs[pos - 2:pos + 1] if n < 66000 else [reqs[pos - 2][:200] + "...", reqs[pos - 1], reqs[pos]]))
+    report.obligation("mon:connect-limits", "monitor", ok, f"{len(metas)} CONNECT option sets with a field at 65535 / 65536 / 70000 bytes")
+
+
 def suite_validate(report, tier, seed, prop="C16"):
     rng = Rng(seed, "validate")
     n = 2500 if tier == "quick" else 60000
